@@ -123,6 +123,13 @@ func (d *nbDriver) newTrace(cls string, ents []database.Command) {
 			}
 			os.WriteFile(d.personal(), b, 0o644)
 		}
+		// ... and may be a symbolic link into a dotfile directory, relative to where it lies
+		if len(ents) > 0 && d.tr%7 == 3 {
+			real := filepath.Join(filepath.Dir(d.personal()), "notebook-real.yml")
+			if os.Rename(d.personal(), real) == nil {
+				os.Symlink("notebook-real.yml", d.personal())
+			}
+		}
 	}
 	ocls, oents := d.observe()
 	d.w.emit(&nbEv{Op: "set", Tr: d.tr, Cls: ocls, Ents: oents, Merged: [][]int{}, Main: [][]int{}})
